@@ -237,11 +237,13 @@ def check_euler(t, c, cls):
     if len(axes) == 1:
         routes.append(("rotation", lambda: rotation(axes[0], angs[0])))
         routes.append(("DCM(%s=)" % axes[0], lambda: DCM(**{axes[0]: angs[0]})))
+        routes.append(("DCM(%s=, degrees=True)" % axes[0], lambda: DCM(**{axes[0]: math.degrees(angs[0]), "degrees": True})))
         routes.append(("rotation[deg]", lambda: rotation(axes[0], math.degrees(angs[0]), degrees=True)))
     if seq == "zyx":
         routes.append(("DCM(rpy=)", lambda: DCM(rpy=list(angs))))
     if seq == "xyz":
         routes.append(("DCM(x=,y=,z=)", lambda: DCM(x=angs[0], y=angs[1], z=angs[2])))
+        routes.append(("DCM(x=,y=,z=, degrees=True)", lambda: DCM(x=math.degrees(angs[0]), y=math.degrees(angs[1]), z=math.degrees(angs[2]), degrees=True)))
     for name, fn in routes:
         Rm = do(t, "C10|%s|%s" % (name, cls), case, fn)
         if Rm is None:
